@@ -706,8 +706,10 @@ def _sat(info, y):
 
 
 def _near(info, y):
+    """inside float rounding of a limit without being the limit itself (an amount that IS the limit is decided
+    by the exclusivity flag alone)"""
     for L in (info.min_value, info.max_value):
-        if L is not None and math.isfinite(y) and abs(y - L) <= 1e-9 * max(abs(L), abs(y), 1e-300):
+        if L is not None and math.isfinite(y) and y != L and abs(y - L) <= 1e-9 * max(abs(L), abs(y), 1e-300):
             return True
     return False
 
